@@ -186,11 +186,9 @@ def check_mo_equals_po(lang, entries):
                     expect[(e["msgid"], i)] = s
     for k, v in expect.items():
         if k == "":
-            # header: compare the fields gettext uses
-            got = cat.get("", "")
-            for fld in ("Plural-Forms", "Content-Type"):
-                if po_header_field(got, fld) != po_header_field(v, fld):
-                    problems.append("%s: .mo header %s differs from .po" % (lang, fld))
+            # header: gettext('') returns it verbatim (an empty substituted value shows it), so the whole text
+            if cat.get("", "") != v:
+                problems.append("%s: .mo header differs from the .po header" % lang)
             continue
         if k not in cat:
             problems.append("%s: .mo lacks entry %r present in .po" % (lang, k))
